@@ -351,7 +351,21 @@ def run_special(res):
         res.violation("C11/special/bare-name-from-two-modules/first-caller-wins",
                       f"unmarshal('Thing', ...) from module A -> {short(ra.val if ra.ok else ra.exc, 80)}, then from module B -> {short(rb.val if rb.ok else rb.exc, 80)} (each module defines its own Thing)",
                       {"kind": "special", "desc": "bare name resolved from two modules in one process"})
-    res.samples.append({"special": "TwoPaths (NewType and Final[NewType]), AliasTwice, bare name from two modules"})
+    # qualified references from another module: top-level class, class nested in a class, module-level alias
+    cold.clear_all()
+    q = prelude.mkmod("tlg_c11_q", "import dataclasses\nclass Canvas:\n    @dataclasses.dataclass\n    class Pixel:\n        x: int\n@dataclasses.dataclass\nclass Top:\n    x: int\nAliasTop = Top\n").__dict__
+    for ref, cls in (("tlg_c11_q.Top", q["Top"]), ("tlg_c11_q.Canvas.Pixel", q["Canvas"].Pixel), ("tlg_c11_q.AliasTop", q["Top"])):
+        for fn_name, fn in (("unmarshal", lambda r: typelib.unmarshal(r, {"x": "1"})), ("marshal", lambda r, cls=cls: typelib.marshal(cls(1), t=r))):
+            cold.clear_all()
+            o = call(fn, ref)
+            res.evals += 1
+            res.outcomes.add(h64("special", "qualified", ref, fn_name, "ok" if o.ok else o.excname))
+            good = o.ok and (same(o.val, cls(1)) if fn_name == "unmarshal" else same(o.val, {"x": 1}))
+            if not good:
+                kind = "nested-class" if "Canvas" in ref else ("alias" if "Alias" in ref else "top-level-class")
+                res.violation(f"C11/special/qualified-reference/{kind}/{fn_name}/{'raises:' + o.excname if not o.ok else 'differs'}",
+                              f"{fn_name} via the qualified string {ref!r} from another module -> {short(o.val if o.ok else o.exc, 100)}", {"kind": "special", "desc": "qualified string references"})
+    res.samples.append({"special": "TwoPaths (NewType and Final[NewType]), AliasTwice, bare name from two modules, qualified references (top-level / nested / alias)"})
 
 
 def run_unit(unit, tier, res):
